@@ -24,6 +24,7 @@ TYPES = {
     "BR5": dict(res=[("S", ["a"])] * 5, edges=[(0, 1), (1, 2), (1, 3), (3, 4)]),
     "RING3": dict(res=[("S", ["a"])] * 3, edges=[(0, 1), (1, 2), (0, 2)]),
     "RING4": dict(res=[("S", ["a"])] * 4, edges=[(0, 1), (1, 2), (2, 3), (0, 3)]),
+    "RINGB4": dict(res=[("B", ["b"])] * 4, edges=[(0, 1), (1, 2), (2, 3), (0, 3)]),      # the same ring of 1.0 nm residues
     "RING5": dict(res=[("S", ["a"])] * 5, edges=[(0, 1), (1, 2), (2, 3), (3, 4), (0, 4)]),
     "RING6": dict(res=[("S", ["a"])] * 6, edges=[(0, 1), (1, 2), (2, 3), (3, 4), (4, 5), (0, 5)]),
     # a ring with a tail (one cycle): tail at the far side of the ring / at the first residue
@@ -38,6 +39,9 @@ TYPES = {
     "DUPB": dict(res=[("S", ["a", "c"]), ("S", ["a", "c"]), ("B", ["a", "c"]), ("B", ["a", "c"])], resids=[1, 2, 1, 2],
                  edges=[(0, 1), (1, 2), (2, 3)]),
     "MIX3": dict(res=[("S", ["a"]), ("D", ["p", "q"]), ("T", ["x", "y", "z"])], edges=[(0, 1), (1, 2)]),
+    # the atoms of the first residue are not contiguous in [ atoms ]: its second atom (a cap) is listed after the other residues
+    "ILV": dict(res=[("D", ["p", "q"]), ("S", ["a"]), ("S", ["a"])], edges=[(0, 1), (1, 2)],
+                listing=[[0, "p"], [1, "a"], [2, "a"], [0, "q"]]),
 }
 DEFAULT_VOLUMES = {"SOL": 0.5, "W": 0.5, "S": 0.5, "B": 1.0, "D": 0.5, "T": 1.0, "K": 0.5}
 BOND_LEN = 0.3
@@ -69,7 +73,20 @@ def type_atoms(tdef):
                         bonds.append((byname[a], byname[b]))
     for a, b in tdef["edges"]:
         bonds.append((first[a], first[b]))
+    if tdef.get("listing"):
+        # the topology lists the atoms in another order than residue by residue: [[residue index, atom name], ...]
+        keys = [(r, an) for r, (_, names) in enumerate(tdef["res"]) for an in names]
+        new = {keys.index(tuple(k)) + 1: i + 1 for i, k in enumerate(tdef["listing"])}
+        atoms = sorted(((new[idx], resid, resname, an) for idx, resid, resname, an in atoms))
+        bonds = [(new[a], new[b]) for a, b in bonds]
     return atoms, bonds
+
+
+def atom_residue_indices(tdef):
+    """residue index (position in tdef['res']) of every atom, in the order the topology lists the atoms"""
+    if tdef.get("listing"):
+        return [k[0] for k in tdef["listing"]]
+    return [r for r, (_, names) in enumerate(tdef["res"]) for _ in names]
 
 
 TYPE_MASS = 36.0
@@ -168,6 +185,18 @@ def read_gro(path):
     return atoms, box, lines
 
 
+def expand_input(sysdef, inp):
+    """an input given as dict(kind, lattice=dict(count, spacing, origin, per_axis), box): the first `count` atoms of the system
+    (molecules of one-atom residues) on a cubic lattice, x fastest - thousands of supplied residues without listing them"""
+    if not inp or "lattice" not in inp:
+        return inp
+    lat = inp["lattice"]
+    atoms = [(resid, resname, an) for _, _, resid, resname, an in expand_atoms(sysdef)[:lat["count"]]]
+    n, sp, o = lat["per_axis"], lat["spacing"], lat["origin"]
+    coords = [(o[0] + sp * (i % n), o[1] + sp * ((i // n) % n), o[2] + sp * (i // (n * n))) for i in range(lat["count"])]
+    return dict(kind=inp["kind"], atoms=atoms, coords=coords, box=inp["box"])
+
+
 def run_gen_coords(sysdef, chooser, workdir=None, **opts):
     """One execution of the real gen_coords.  sysdef keys: types, molecules, box (or None), density, grid (list of points
     or None), volumes, bld_extra, input (dict(kind='c'|'mc', atoms, coords, box)), kwargs for gen_coords (maxiter, nrewind,
@@ -188,7 +217,7 @@ def run_gen_coords(sysdef, chooser, workdir=None, **opts):
         if sysdef.get("grid") is not None:
             np.savetxt(d / "grid.dat", np.array(sysdef["grid"], dtype=float))
             kwargs["grid"] = str(d / "grid.dat")
-        inp = sysdef.get("input")
+        inp = expand_input(sysdef, sysdef.get("input"))
         if inp:
             write_gro(d / "in.gro", inp["atoms"], inp["coords"], inp["box"])
             kwargs["coordpath" if inp["kind"] == "c" else "coordpath_meta"] = d / "in.gro"
